@@ -264,6 +264,17 @@ def run(repo, res):
     api_model.apply(res, api_model.declarations_model(repo), {'alts': 'C17-R2'}, 'supp/evaluator.py', 0)
     api_model.apply(res, api_model.location_model(repo), {'pairs': 'C17-R2'}, 'supp/assistant.py', 0)
 
+    from .. import rules_e1 as R
+    nso = 0
+    for cls, r in sorted(R.statement_order_records(repo).items()):
+        nso += r['n']
+        res.check('C17-R2', '%s visits its statements in source order' % R.method_name(repo, cls), not r['bad'], r['line'][0], r['line'][1],
+                  'the statements %s are visited before %s although they follow them in the source: attribute assignments (and '
+                  'everything else the extractor records in visiting order) are then listed out of source order'
+                  % ((r['bad'][0][1], r['bad'][0][2]) if r['bad'] else ('', '')), sample='%s: statement blocks visited in source order' % cls,
+                  nontrivial=False)
+    res.count('statement_order_pairs', nso, floor=150)
+
     # ---- R3 API results -------------------------------------------------------------------------------
     api_model.apply(res, api_model.assist_model(repo), {'sorted': 'C17-R3', 'pkg': 'C17-R3'}, 'supp/assistant.py', 0)
 
